@@ -20,12 +20,15 @@ static int budget; static long lines;
 static void isr(void){ while(inject && budget>0 && rnd(3)==0){ budget--; if(++lines>2000000) exit(0); int r=COTmrService(&node.Tmr); printf("{\"e\":\"service\",\"a\":0,\"b\":0,\"ret\":%d",r); proj(); } }
 void COTmrLock(void){ isr(); }
 void COTmrUnlock(void){ if(inject){ printf("{\"e\":\"cs\",\"a\":0,\"b\":0,\"ret\":0"); proj(); } isr(); }
+/* the callback parameter of a new action = its id (the action is looked up by its Id field: which slot carries which id is the
+   implementation's business) */
+static void set_para(int id){ CO_TMR_MEM*m=(CO_TMR_MEM*)node.Tmr.APool; for(unsigned i=0;i<node.Tmr.Max;i++) if(m[i].Act.Id==(uint16_t)id){ m[i].Act.Para=(void*)(intptr_t)id; return; } }
 static void cb(void*p){ printf("{\"e\":\"cb\",\"a\":%d,\"b\":0,\"ret\":0",(int)(intptr_t)p); proj(); isr(); }
 int main(int argc,char**argv){ int max=atoi(argv[1]); int nops=atoi(argv[2]); rs=atol(argv[3]);
  tm=malloc(sizeof(CO_TMR_MEM)*max); memset(&node,0,sizeof node); node.If.Drv=&drv; node.If.Node=&node; node.Nmt.Tmr=-1;
  COTmrInit(&node.Tmr,&node,tm,max,1000); inject=1;
  for(int i=0;i<nops;i++){ unsigned k=rnd(10); budget=3; int ret=0; int a=0,b=0;
-  if(k<3){ a=rnd(4); b=rnd(3)?0:rnd(3); printf("{\"e\":\"call_create\",\"a\":%d,\"b\":%d,\"ret\":0",a,b); proj(); ret=COTmrCreate(&node.Tmr,a,b,cb,0); if(ret>=0) ((CO_TMR_MEM*)node.Tmr.APool)[ret].Act.Para=(void*)(intptr_t)ret; printf("{\"e\":\"ret_create\",\"a\":%d,\"b\":%d,\"ret\":%d",a,b,ret); proj(); }
+  if(k<3){ a=rnd(4); b=rnd(3)?0:rnd(3); printf("{\"e\":\"call_create\",\"a\":%d,\"b\":%d,\"ret\":0",a,b); proj(); ret=COTmrCreate(&node.Tmr,a,b,cb,0); if(ret>=0) set_para(ret); printf("{\"e\":\"ret_create\",\"a\":%d,\"b\":%d,\"ret\":%d",a,b,ret); proj(); }
   else if(k<5){ a=(int)rnd(max+2)-1; printf("{\"e\":\"call_delete\",\"a\":%d,\"b\":0,\"ret\":0",a); proj(); ret=COTmrDelete(&node.Tmr,a); printf("{\"e\":\"ret_delete\",\"a\":%d,\"b\":0,\"ret\":%d",a,ret); proj(); }
   else if(k<8){ ret=COTmrService(&node.Tmr); printf("{\"e\":\"service\",\"a\":0,\"b\":0,\"ret\":%d",ret); proj(); }
   else { printf("{\"e\":\"call_process\",\"a\":0,\"b\":0,\"ret\":0"); proj(); COTmrProcess(&node.Tmr); printf("{\"e\":\"ret_process\",\"a\":0,\"b\":0,\"ret\":0"); proj(); }
